@@ -212,3 +212,23 @@ def driver_case_text(c, o):
         lines.append("B " + " ".join("%s %s" % (k, "-" if v == DEFAULT else v) for k, v in zip(b["k"], b["v"])))
         lines.append("O " + hx_or_dash(r) + " " + " ".join(hx_or_dash(x) for x in g))
     return lines
+
+
+def run_engine_safe(ctx, binpath, test, cases, tag):
+    """Like run_engine, but if the engine process dies (a panic inside one of the trie's own
+    goroutines cannot be recovered by the engine) find the first case that kills it by bisection.
+    Returns (lines for the cases before the crash, index of the crashing case or None)."""
+    try:
+        return run_engine(ctx, binpath, test, cases, tag), None
+    except RuntimeError:
+        pass
+    lo, hi = 0, len(cases)          # invariant: cases[:lo] runs, cases[:hi] crashes
+    while hi - lo > 1:
+        mid = (lo + hi) // 2
+        try:
+            run_engine(ctx, binpath, test, cases[:mid], tag + "_bisect")
+            lo = mid
+        except RuntimeError:
+            hi = mid
+    lines = run_engine(ctx, binpath, test, cases[:lo], tag) if lo else []
+    return lines, lo
